@@ -39,6 +39,15 @@ CLAIMS = {
                   "the real code (CompletesAfterRecovery) and on the model.", "5-C05"),
     "C06": _claim("NodesBound against the simulator's ground truth after every sbatch/hpc event and ProcsBound after every "
                   "launch, on JadeImpl and real traces.", "5-C06"),
+    "C07": _claim("Batching.tla: TLC enumerates every batching input with <=3 jobs (admissible batches, node budget, "
+                  "termination, closed form = step-wise run); the same input space is executed on the real submit-jobs and the "
+                  "observed batches are validated by TLC against the closed form (BatchTrace.tla); C07 clauses of JadeMonitor on "
+                  "every cfgbatch/sbatch event of real traces incl. 1-3 groups, group options and dry-run pairs (DryRunSame).",
+                  "5-C07"),
+    "C08": _claim("Results.tla: all interleavings of appenders, collectors (with canceled rows) and a reader at lock-operation "
+                  "granularity (bag conservation, exactly-once reporting); its behaviours and random schedules are executed on "
+                  "the real ResultsAggregator in virtual processes parked at every lock operation; rows/collected events of whole "
+                  "submissions are validated too.", "5-C08"),
     "C09": _claim("All status clauses evaluated after every cluster-lock release (and between consecutive statuses) on "
                   "JadeImpl and on real traces.", "5-C09"),
 }
